@@ -2201,6 +2201,8 @@ class Series(ContainerOperand):
         iloc_key = self._index._loc_to_iloc(key)
         if not isinstance(iloc_key, INT_TYPES):
             raise RuntimeError(f'Unsupported key type: {key}')
+        if iloc_key < 0: # a negative position (as from ILoc) counts from the end
+            iloc_key += self._index.__len__()
         return self._insert(iloc_key, container)
 
     @doc_inject(selector='insert')
@@ -2221,6 +2223,8 @@ class Series(ContainerOperand):
         iloc_key = self._index._loc_to_iloc(key)
         if not isinstance(iloc_key, INT_TYPES):
             raise RuntimeError(f'Unsupported key type: {key}')
+        if iloc_key < 0: # a negative position (as from ILoc) counts from the end
+            iloc_key += self._index.__len__()
         return self._insert(iloc_key + 1, container)
 
     #---------------------------------------------------------------------------
